@@ -20,6 +20,7 @@ func TestC06NodeIncoming(t *testing.T) {
 	rec := evid.New(t, "C06", "node level, incoming side: nodes with an incoming key and every combination of outgoing version {1,2}, outgoing key {none, same, other} and dialect {none, ardupilotmega} receive generated sequences of v1 frames, unsigned v2 frames, frames signed under another key, frames with a damaged signature and validly signed frames: only the validly signed ones may surface as frame events, all others as parse errors; non-trivial = sequence with at least one rejected and one valid frame; distinct by hash of the sequence and configuration")
 	rec.Require("out-v1", "out-v2", "no-dialect", "v1-frame", "unsigned", "other-key", "valid")
 	evid.Check(t, rec, evid.N(150, 600), func(t *rapid.T) {
+		drawNodeInit(t)
 		key := [32]byte{}
 		copy(key[:], rapid.SliceOfN(rapid.Byte(), 32, 32).Draw(t, "key"))
 		other := key
@@ -44,7 +45,7 @@ func TestC06NodeIncoming(t *testing.T) {
 		if withDialect {
 			n.Dialect = ardupilotmega.Dialect
 		}
-		if err := n.Initialize(); err != nil {
+		if err := initNode(&n); err != nil {
 			t.Fatalf("BROKEN: %v (%s)", err, desc)
 		}
 		r := sim.StartRecorder(n, sim.Pacing{Kind: "fast"}, nil)
